@@ -173,6 +173,20 @@ func vkSeedWorld(w *vkSrvWorld) {
 		m.Ns = []dns.RR{vkRR(soa)}
 		return m
 	}
+	// denials of an UNSIGNED-looking upstream: NSEC / NSEC3 records without any RRSIG next to them (a NODATA and a positive
+	// answer carrying them): still DNSSEC records a client without DO must not be shown, whatever decides "has DNSSEC"
+	sc["nsecraw.t."] = func(req *dns.Msg) *dns.Msg {
+		m := vkReplyTo(req)
+		m.Ns = []dns.RR{vkRR(soa), vkRR("nsecraw.t. 300 IN NSEC nsecraw2.t. TXT NSEC"),
+			vkRR("0p9mhaveqvm6t7vbl5lop2u3t2rp3tom.t. 300 IN NSEC3 1 0 0 - 0p9mhaveqvm6t7vbl5lop2u3t2rp3ton TXT")}
+		return m
+	}
+	sc["nsecpos.t."] = func(req *dns.Msg) *dns.Msg {
+		m := vkReplyTo(req)
+		m.Answer = []dns.RR{vkRR("nsecpos.t. 300 IN A 192.0.2.43")}
+		m.Ns = []dns.RR{vkRR("nsecpos.t. 300 IN NSEC nsecpos2.t. A NSEC")}
+		return m
+	}
 	sc["ede.t."] = func(req *dns.Msg) *dns.Msg {
 		m := vkReplyTo(req)
 		m.Answer = []dns.RR{vkRR("ede.t. 300 IN A 192.0.2.40")}
@@ -271,7 +285,7 @@ func vkSeedWorld(w *vkSrvWorld) {
 	}
 	// admission: ask each once through the decoded entry, DO set so the complete answer is stored
 	client := netip.MustParseAddrPort("198.51.100.7:5300")
-	for _, n := range []string{"hit.t.", "sig.t.", "tgt.t.", "cn.t.", "cnx.t.", "cnns.t.", "cnad.t.", "cnsig.t.", "cnu.t.", "keep.nx.t.", "nx.t.", "nd.t.", "ede.t.", "big.t.", "mid.t.", "xtra.t.", "sf.t.", "ref.t."} {
+	for _, n := range []string{"hit.t.", "sig.t.", "tgt.t.", "cn.t.", "cnx.t.", "cnns.t.", "cnad.t.", "cnsig.t.", "cnu.t.", "keep.nx.t.", "nx.t.", "nd.t.", "ede.t.", "big.t.", "mid.t.", "xtra.t.", "sf.t.", "ref.t.", "nsecraw.t.", "nsecpos.t."} {
 		for _, cd := range []bool{false, true} {
 			p := vkBasePkt(n, dns.TypeA)
 			p.OPT, p.DO, p.Size, p.CD = true, true, 4096, cd
@@ -282,7 +296,7 @@ func vkSeedWorld(w *vkSrvWorld) {
 	w.serve(vkPathDecoded, "tcp", client, p.build())
 }
 
-var vkSrvTargets = []string{"hit.t.", "cn.t.", "cnx.t.", "cnns.t.", "cnad.t.", "tgt.t.", "cnsig.t.", "cnu.t.", "sig.t.", "nx.t.", "x.nx.t.", "keep.nx.t.", "nxa.t.", "nd.t.", "ede.t.", "big.t.", "mid.t.", "xtra.t.", "optup.t.", "opt2up.t.", "sf.t.", "ref.t.", "miss.t.", "hosts.t.", "1.10.in-addr.arpa.", ".", "boom.t.", "optns.t.", "optan.t."}
+var vkSrvTargets = []string{"hit.t.", "cn.t.", "cnx.t.", "cnns.t.", "cnad.t.", "tgt.t.", "cnsig.t.", "cnu.t.", "sig.t.", "nx.t.", "x.nx.t.", "keep.nx.t.", "nxa.t.", "nd.t.", "ede.t.", "big.t.", "mid.t.", "xtra.t.", "optup.t.", "opt2up.t.", "sf.t.", "ref.t.", "miss.t.", "hosts.t.", "1.10.in-addr.arpa.", ".", "boom.t.", "optns.t.", "optan.t.", "nsecraw.t.", "nsecpos.t."}
 
 func vkSrvConfigs(thorough bool) []vkSrvCfg {
 	cfgs := []vkSrvCfg{
